@@ -118,15 +118,19 @@ CLAIMED = {
         note=_COMMON_NOTE + 'networkx ancestors/descendants/all_simple_paths/topological sorts are assumed to agree with the '
                             'definitional model; measured exhaustively on the small universes.'),
     'C11': dict(
-        technique='Lean 4 proof (boolean d-separation procedure = path-blocking definition for every edge list; minimal '
-                  'separators characterised) with differential correspondence against networkx, exhaustive on small DAGs',
+        technique='Lean 4 proof (boolean d-separation procedure = path-blocking definition for every edge list; the algorithm '
+                  'networkx runs - leaf pruning, out-edge deletion, weak connectivity - transcribed and proved equivalent on every '
+                  'DAG; minimal separators characterised) with differential correspondence against networkx, exhaustive on small DAGs',
         text='Theorems: is_d_separated (sets, after argument coercion and the DAG/presence assertions) is true iff every path '
              'between X and Y is blocked by Z (non-collider in Z, or collider with no descendant-or-self in Z); '
              'is_minimally_d_separated iff Z separates and no element can be dropped; symmetry; coercion facts; the '
-             'assertions of get_d_separation_set. Lane: every labelled DAG <= 4 nodes + sampled 5-node DAGs (quick) / all '
+             'assertions of get_d_separation_set; the transcription of networkx.d_separated (3.2.1) equals the model on every '
+             'query of every DAG (nx_eq_model; no disjointness needed), its deque loop leaves exactly the ancestral graph for '
+             'any deque order, its union-find rounds equal weak connectivity. Lane: every labelled DAG <= 4 nodes + sampled 5-node DAGs (quick) / all '
              '29 281 DAGs on 5 nodes (thorough), all pairs, all conditioning subsets, three argument forms; '
              'get_d_separation_set validated by predicate.',
-        note=_COMMON_NOTE + 'networkx d_separated / minimal_d_separator / is_minimal_d_separator are assumed to compute the '
+        note=_COMMON_NOTE + 'networkx.d_separated: trusted only to be the ~30 lines transcribed in CG/Model/NxDSep.lean (read, and '
+                            'measured on every query); minimal_d_separator / is_minimal_d_separator are assumed to compute the '
                             'definitional notions (measured exhaustively); with networkx 3.2.1 is_minimal_d_separator already '
                             'checks separation, so the extra conjunct in the code is exercised with a 3.1-style stand-in.'),
     'C12': dict(
